@@ -19,6 +19,7 @@ RULE = ('instruction instances of the integer core produced by GNU as from a tab
         'pushf/popf, pusha/popa, enter/leave, movs/cmps/scas/lods/stos (b/w/d, one iteration, both directions), xlat, aaa..das) x operand size 8/16/32 x operand form (reg,reg / reg,imm / reg,mem / '
         'mem,reg / mem,imm; high byte registers; esp/ebp bases; SIB) x states (registers and flags from the boundary set {0,1,2^k-1,2^k,sign bit,all ones} and random; random memory; %d states per '
         'instance quick, %d thorough). A case = (instance, state); non-trivial = the CPU executed the step without fault and at least one compared location is architecturally defined.')
+RULE += ' Round 6: 16-bit addressing runs on the CPU as well (the tracee maps low pages and the last page of the first 64K): ALU, mov, shift, movzx, xchg, setcc/cmovcc, push/pop/call/jmp through [bx+si]-style operands, xlat and the five string instructions with si/di, with garbage in the upper register halves, wrapping sums and pointers stepping across 0xffff; meaning-free address-size prefixes on call/push/pop/ret/pushf/leave/jmp/jecxz/loop.'
 ASSUMPTIONS = ['the host CPU (single-stepped through Linux ptrace) is "an x86 processor"; faulting steps are excluded', 'the table of architecturally undefined results below is transcribed from the SDM',
                'vf/irsem.py gives the standard bit-vector meaning of the IR; memory is flat (segment annotations ignored)',
                'direct branches are compared by taken/not-taken (the lifter leaves the raw displacement as target; the architectural target is C17)']
@@ -84,7 +85,7 @@ def instances():
     for mn in ('shl', 'sal', 'shr', 'sar', 'rol', 'ror', 'rcl', 'rcr'):
         for size in (8, 16, 32):
             rs = R[size]
-            counts = sorted(set([0, 1, 2, size - 1, size, size + 1, 31, 32, 33, 0x7f, 0xff, 9, 17, 18]))
+            counts = sorted(set([0, 1, 2, size - 1, size, size + 1, 31, 32, 33, 0x7f, 0xff, 9, 17, 18, 16, 24, 40, 48, 0x90]))
             for c in counts:
                 cls = 'count=0' if (c & 31) == 0 else ('count=1' if (c & 31) == 1 else ('count<n' if (c & 31) < size else ('count=n' if (c & 31) == size else 'count>n')))
                 add('%s %s, %d' % (mn, rs[1] if size != 8 else 'dl', c), mn, size, 'r,i', cls, count=c)
